@@ -213,3 +213,21 @@ func thmReaderRoundTrip(f *Fasta, k int) {
 	}
 	_, _ = g, e
 }
+
+//@ theorem C01.marshalIsWrite
+//@   props C01
+//@   inline Fasta.MarshalText
+//@   requires f != nil
+// MarshalText returns exactly the bytes Write emits (MarshalText's body is
+// executed here, Write is replaced by its contract in both places).
+func thmMarshalIsWrite(f *Fasta, x int) {
+	t, err := f.MarshalText()
+	buf := &bytes.Buffer{}
+	f.Write(buf)
+	//@ assert err == nil && len(t) == len(buf.out)
+	if 0 <= x && x < len(t) {
+		//@ assert t[x] == buf.out[x]
+		_ = x
+	}
+	_, _ = t, err
+}
